@@ -141,6 +141,7 @@ type world struct {
 	seq      int        // logical clock for subscriber-side events
 	log      []logEntry // upstream-side event order (coverage classes only, never an oracle input)
 	wg       sync.WaitGroup
+	closing  bool // set under mu by close(); handlers that arrive later must not touch wg
 	pongSilent map[int]bool
 }
 
@@ -196,6 +197,7 @@ func (w *world) close() {
 	}
 	w.stop()
 	w.mu.Lock()
+	w.closing = true
 	conns := append([]*upConn(nil), w.conns...)
 	for i := range w.gate {
 		if !w.gateOpen[i] {
@@ -277,11 +279,16 @@ func (w *world) serveWS(rw http.ResponseWriter, r *http.Request) {
 	uc := &upConn{ws: ws, path: r.URL.Path, hdr: r.Header.Get("X-T"), proto: ws.Subprotocol(), ids: map[string]int{}, tuple: -1,
 		offered: strings.Join(splitTokens(r.Header.Values("Sec-WebSocket-Protocol")), ",")}
 	w.mu.Lock()
+	if w.closing { // accepted while the world is being torn down: wg.Add must not race with wg.Wait
+		w.mu.Unlock()
+		_ = ws.CloseNow()
+		return
+	}
+	w.wg.Add(1)
 	uc.idx = len(w.conns)
 	w.conns = append(w.conns, uc)
 	w.bump()
 	w.mu.Unlock()
-	w.wg.Add(1)
 	defer w.wg.Done()
 	defer ws.CloseNow()
 	for {
@@ -466,6 +473,11 @@ func (w *world) serveSSE(rw http.ResponseWriter, r *http.Request) {
 	us := &upStream{sub: i, cmds: make(chan sseCmd), kill: make(chan struct{}), tuple: -1,
 		key: fmt.Sprintf("sse|%s|%s|X-T=%s", r.URL.Path, r.Method, r.Header.Get("X-T"))}
 	w.mu.Lock()
+	if w.closing {
+		w.mu.Unlock()
+		http.Error(rw, "closing", 503)
+		return
+	}
 	if i < 0 || i >= len(w.subs) {
 		w.upViol = append(w.upViol, fmt.Sprintf("sse request for unknown operation %q", op))
 		w.mu.Unlock()
@@ -492,9 +504,9 @@ func (w *world) serveSSE(rw http.ResponseWriter, r *http.Request) {
 	if us.tuple >= 0 {
 		g = w.gate[us.tuple]
 	}
+	w.wg.Add(1)
 	w.bump()
 	w.mu.Unlock()
-	w.wg.Add(1)
 	defer w.wg.Done()
 	defer func() {
 		w.mu.Lock()
